@@ -15,6 +15,7 @@ import (
 	"unicode/utf8"
 
 	"github.com/go-faster/city"
+	rservice "github.com/metrico/qryn/reader/service"
 	wmodel "github.com/metrico/qryn/writer/model"
 	"github.com/metrico/qryn/writer/utils/numbercache"
 	"github.com/metrico/qryn/writer/utils/proto/logproto"
@@ -45,7 +46,33 @@ type LCase struct {
 	GoValid  bool              `json:"go_valid"`      // json.Valid(doc) && utf8.Valid(doc)
 	QuoteJSON bool             `json:"quote_json"` // would the document strconv.Quote wrote before the fix (value only cut at 100 bytes) have been JSON for the set
 	GoEqual  bool              `json:"go_equal"`      // ... and its members, in order, are exactly the sanitized pairs
+	Reader   string            `json:"reader"`         // the READER's decoder of stored label documents (storedLabels, used by /series) on the document: "ok" = exactly the sanitized label set
+	NamesDistinct bool         `json:"names_distinct"` // the sanitized names are pairwise distinct (the property's quantifier)
 	Panic    string            `json:"panic,omitempty"`
+}
+
+// readerView runs the reader's own decoder of stored label documents (reader/service storedLabels, hook
+// VerifC15StoredLabels: the function /series decodes time_series.labels with) and compares its map with the label
+// list; for duplicate names a Go map keeps the last value.
+func readerView(doc string, labels [][]string) (string, bool) {
+	want := map[string]string{}
+	for _, kv := range labels {
+		want[kv[0]] = kv[1]
+	}
+	distinct := len(want) == len(labels)
+	m, err := rservice.VerifC15StoredLabels(doc)
+	if err != nil {
+		return "error: " + err.Error(), distinct
+	}
+	if len(m) != len(want) {
+		return fmt.Sprintf("the reader decodes %d labels, the set has %d", len(m), len(want)), distinct
+	}
+	for k, v := range want {
+		if got, ok := m[k]; !ok || got != v {
+			return fmt.Sprintf("label %q: the reader decodes %q (present %v), the set has %q", k, got, ok, v), distinct
+		}
+	}
+	return "ok", distinct
 }
 
 // a cache that has never seen anything: every (day, fingerprint) pair is new
@@ -473,6 +500,7 @@ func observe(r *rand.Rand, c *LCase, raw [][]string) {
 		if c.GoValid {
 			c.GoEqual = membersEqual(doc, san)
 		}
+		c.Reader, c.NamesDistinct = readerView(string(doc), san)
 		var oldPairs [][]string
 		var oldParts []string
 		for i, kv := range raw {
